@@ -12,10 +12,10 @@ by `;`, `e` = empty array) and `<prob>` = `-` or columns separated by `;`, each 
 `<type>:<num>/<den>,…`.
 
 ```
-carve.region <sig×5> unalloc <ba 0|1> <page size> <page offset> <region start> - <hex>
-carve.region <sig×5> freeblock <ba 0|1> <page size> <page offset> <freeblock start> <freeblock byte size> <hex of the content>
+carve.region <sig×5> unalloc <page size> <page offset> <region start> - <hex>
+carve.region <sig×5> freeblock <page size> <page offset> <freeblock start> <freeblock byte size> <hex of the content>
       → ok <cell>;<cell>… | ok - | err <class>
-carve.record <sig×5> <loc unalloc|freeblock|allocated> <ba> <page size> <start> <end> <cutoff> <first column types|none> <freeblock size|-> <hex>
+carve.record <sig×5> <loc unalloc|freeblock|allocated> <page size> <start> <end> <cutoff> <first column types|none> <freeblock size|-> <hex>
       → ok <record> | caught cellCarving | caught valueError | err <class>
 carve.journal <journal path> <page size> <sig×5>       → ok <commit>/<commit>… | err <class>
 carve.table <db> <wal|-> <version> <name hex> <sig×5> [cfg…]  → ok <cells> | <stage>:err <class>
@@ -74,22 +74,20 @@ def showCells (l : List CarvedCell) : String :=
 
 def boolOf (s : String) : Option Bool := if s = "1" then some true else if s = "0" then some false else none
 
-def region (sig : CarveSig) (loc ba ps po rs fbs hex : String) : Option String := do
-  let ba ← boolOf ba
+def region (sig : CarveSig) (loc ps po rs fbs hex : String) : Option String := do
   let ps ← ps.toNat?
   let po ← po.toNat?
   let rs ← rs.toNat?
   let data ← bufOfHex hex
   match loc with
-  | "unalloc" => pure (showPy showCells (carveUnallocated sig ps 1 po rs data ba))
+  | "unalloc" => pure (showPy showCells (carveUnallocated sig ps 1 po rs data))
   | "freeblock" => do
     let fb ← fbs.toNat?
-    pure (showPy showCells (carveFreeblocks sig ps [⟨1, 0, rs, fb, data, ba, po⟩]))
+    pure (showPy showCells (carveFreeblocks sig ps [⟨1, 0, rs, rs + 4, fb, data, po⟩]))
   | _ => none
 
-def record (sig : CarveSig) (loc ba ps s e co fc fbs hex : String) : Option String := do
+def record (sig : CarveSig) (loc ps s e co fc fbs hex : String) : Option String := do
   let loc ← parseLoc loc
-  let ba ← boolOf ba
   let ps ← ps.toNat?
   let s ← s.toNat?
   let e ← e.toNat?
@@ -97,7 +95,7 @@ def record (sig : CarveSig) (loc ba ps s e co fc fbs hex : String) : Option Stri
   let fc ← (if fc = "none" then some none else if fc = "e" then some (some []) else (Driver.Sig.parseInts fc).map some)
   let fb ← (if fbs = "-" then some none else fbs.toNat?.map some)
   let data ← bufOfHex hex
-  pure (match carvedRecord ⟨loc, data, ba, s, e, co, sig.numberOfColumns, sig, fc, fb, ps⟩ with
+  pure (match carvedRecord ⟨loc, data, s, e, co, sig.numberOfColumns, sig, fc, fb, ps⟩ with
     | .ok r => "ok " ++ showRec r
     | .error .cellCarving => "caught cellCarving"
     | .error (.py .valueError) => "caught valueError"
@@ -134,10 +132,10 @@ def readOpt (path : String) : IO (Option Buf) :=
 
 def handle (toks : List String) : IO (Option String) := do
   match toks with
-  | ["carve.region", nc, tot, simp, rec_, prob, loc, ba, ps, po, rs, fbs, hex] =>
-    pure (do let sig ← parseSig nc tot simp rec_ prob; region sig loc ba ps po rs fbs hex)
-  | ["carve.record", nc, tot, simp, rec_, prob, loc, ba, ps, s, e, co, fc, fbs, hex] =>
-    pure (do let sig ← parseSig nc tot simp rec_ prob; record sig loc ba ps s e co fc fbs hex)
+  | ["carve.region", nc, tot, simp, rec_, prob, loc, ps, po, rs, fbs, hex] =>
+    pure (do let sig ← parseSig nc tot simp rec_ prob; region sig loc ps po rs fbs hex)
+  | ["carve.record", nc, tot, simp, rec_, prob, loc, ps, s, e, co, fc, fbs, hex] =>
+    pure (do let sig ← parseSig nc tot simp rec_ prob; record sig loc ps s e co fc fbs hex)
   | ["carve.journal", path, ps, nc, tot, simp, rec_, prob] =>
     match parseSig nc tot simp rec_ prob, ps.toNat? with
     | some sig, some ps =>
